@@ -334,7 +334,8 @@ Definition is_ref (t : gty) : bool := match t with GRef _ _ => true | _ => false
 Definition mknode (c u : gty) (var : option str) : node :=
   {| ntype := c; nunw := u; nvar := var; ncyc := false; nfor := c |}.
 
-(* a revisited generic / union / qualified annotation is deferred as ITSELF, flagged cyclic *)
+(* a revisited generic / union / qualified annotation, or a member that already is a ForwardRef, is
+   deferred as ITSELF, flagged cyclic *)
 Definition mkdefer (c u : gty) (var : option str) : node :=
   {| ntype := c; nunw := u; nvar := var; ncyc := true; nfor := c |}.
 
@@ -411,7 +412,7 @@ Fixpoint expand (E : env) (kids : list (option str * gty)) (st : state) (path : 
       else
         let u := unwrap c in
         if visitedb E c u var st path && can_be_cyclic E u then
-          if is_generic E u || should_unwrap c then
+          if is_generic E u || should_unwrap c || is_ref c then
             match expand E rest st path with Some (ps, st') => Some (mkdefer c u var :: ps, st') | None => None end
           else
             match mkref E c u var with
